@@ -12,7 +12,7 @@
 (* (harness/props/c11.py, stage tours).                                                                 *)
 (*                                                                                                      *)
 (* Model file (env MODEL_FILE, JSON):  {"configs": [ {"cfg": <configuration, see AmMemOps>,             *)
-(*     "addrs": [...], "datas": [...raw data words...], "wens": [[enable masks of write port j]...],    *)
+(*     "addrs": [...], "datas": [[raw data words of write port j]...], "wens": [[enable masks of j]...], *)
 (*     "edges": [D...], "tbvals": [...row values in API form...]} ... ]}                                *)
 (* Inputs of ports that cannot act in an event (their clock does not rise; asynchronous read ports;     *)
 (* disabled ports' address and data) do not influence the state; they are fixed to 0 in the labels and  *)
@@ -47,7 +47,7 @@ RdChoices(k, D) ==
     ELSE {<<0, 1>>}
 WrChoices(j, D) ==
     IF Rises(C.wp[j].dom, D)
-    THEN {<<0, 0, 0>>} \cup {<<a, d, e>> : a \in Ran(M.addrs), d \in Ran(M.datas), e \in Ran(M.wens[j]) \ {0}}
+    THEN {<<0, 0, 0>>} \cup {<<a, d, e>> : a \in Ran(M.addrs), d \in Ran(M.datas[j]), e \in Ran(M.wens[j]) \ {0}}
     ELSE {<<0, 0, 0>>}
 RdAll(D) == {f \in [1..NR(C) -> UNION {RdChoices(k, D) : k \in 1..NR(C)}] : \A k \in 1..NR(C) : f[k] \in RdChoices(k, D)}
 WrAll(D) == {f \in [1..NW(C) -> UNION {WrChoices(j, D) : j \in 1..NW(C)}] : \A j \in 1..NW(C) : f[j] \in WrChoices(j, D)}
